@@ -1230,7 +1230,10 @@ class SuccessionDiagram:
         Expand the succession diagram and search for attractors using default methods.
         """
         self.expand_block()
-        for node_id in self.node_ids():
+        # Only expanded nodes take part in the attractor search: block expansion can
+        # leave unexpanded stubs whose attractors are already covered by expanded nodes,
+        # and searching them again would report the same attractor twice.
+        for node_id in list(self.expanded_ids()):
             self.node_attractor_seeds(node_id, compute=True)
 
     def expand_scc(self, find_motif_avoidant_attractors: bool = True) -> bool:
